@@ -91,6 +91,16 @@ func (i *IPPool) DeallocIP(seid uint64) error {
 	return nil
 }
 
+// holds tells whether an address is allocated for the session.
+func (i *IPPool) holds(seid uint64) bool {
+	i.mu.Lock()
+	defer i.mu.Unlock()
+
+	_, ok := i.inventory[seid]
+
+	return ok
+}
+
 func (i *IPPool) String() string {
 	i.mu.Lock()
 	defer i.mu.Unlock()
